@@ -56,13 +56,11 @@ theorem absorbing_unique {n : Nat} {T : Mat} {S : List Nat} {b : Mat} {x y : Vec
     intro s hs
     have a := sol_abs_row hx (hS s hs) hs Nat.zero_lt_one
     have c := sol_abs_row hy (hS s hs) hs Nat.zero_lt_one
-    simp only at a c
     rw [a, c]; ring
   have hharm : ∀ i, i < n → i ∉ S → x i - y i = ∑ j ∈ range n, T i j * (x j - y j) := by
     intro i hi his
     have a := sol_free_row hx hi his Nat.zero_lt_one
     have c := sol_free_row hy hi his Nat.zero_lt_one
-    simp only at a c
     have e : ∀ j ∈ range n, T i j * (x j - y j)
         = (if j ∈ S then (0 : Rat) else T i j * x j) - (if j ∈ S then (0 : Rat) else T i j * y j) := by
       intro j _
@@ -76,7 +74,6 @@ theorem absorbing_unique {n : Nat} {T : Mat} {S : List Nat} {b : Mat} {x y : Vec
     (fun a ha => le_of_eq (hd0 a ha)) hharm i hi
   have hge := harmonic_ge (q := fun i => x i - y i) (c := 0) hnn hrow hreach
     (fun a ha => le_of_eq (hd0 a ha).symm) hharm i hi
-  simp only at hle hge
   linarith
 
 end Ens.Tpt
